@@ -78,6 +78,83 @@ def specCellAt : List (View ν α) → Nat → List Nat → Option Cell
   | _ :: vs, n + 1, idx => specCellAt vs n idx
 end
 
+/-! ### The invariant the constructors establish (`View.WF`)
+
+  Every clause is a fact the Rust constructor checks or establishes and that the adaptor keeps in
+  its fields; `Lemmas/View.lean` proves `mkX s … = some v → s.WF → v.WF` for every constructor.
+  Two clauses are *assumptions about sizes* rather than checks of the code, both implied by
+  "everything fits in memory": a leaf stores at most `usize::MAX` elements, and the lengths of
+  chained sources sum to at most `usize::MAX` (the code adds them with `Iterator::sum`; distinct
+  sources occupy distinct memory, but the same tensor borrowed many times could exceed it). -/
+
+/-- ranges clipped to the source and non-empty -/
+def RangesOK : Shape ν → List IndexRange → Prop
+  | d :: ds, r :: rs => (1 ≤ r.length ∧ r.start + r.length ≤ d.2) ∧ RangesOK ds rs
+  | [], [] => True
+  | _, _ => False
+
+/-- masks clipped to the source (or empty) that leave something visible -/
+def MasksOK : Shape ν → List IndexRange → Prop
+  | d :: ds, m :: ms => ((m.length = 0 ∨ m.start + m.length ≤ d.2) ∧ m.length < d.2) ∧ MasksOK ds ms
+  | [], [] => True
+  | _, _ => False
+
+/-- provided indexes inside their dimension -/
+def ProvidedOK : Shape ν → List (Option Nat) → Prop
+  | d :: ds, some p :: ps => p < d.2 ∧ ProvidedOK ds ps
+  | _ :: ds, none :: ps => ProvidedOK ds ps
+  | [], [] => True
+  | _, _ => False
+
+/-- extra dimensions: ascending positions within `0..=D`, fresh distinct names -/
+def ExtraOK (shape : Shape ν) (extra : List (Nat × ν)) : Prop :=
+  (extra.map (·.1)).Pairwise (· ≤ ·) ∧ (∀ e ∈ extra, e.1 ≤ shape.length) ∧
+  (extra.map (·.2)).Nodup ∧ (∀ e ∈ extra, e.2 ∉ namesOf shape)
+
+/-- the two tables of a `DimensionMappings` are mutually inverse permutations of `0..D` -/
+def MappingOK (m : DimensionMappings) (D : Nat) : Prop :=
+  m.sourceToRequested.length = D ∧ m.requestedToSource.length = D ∧
+  (∀ d, d < D → m.sourceToRequested.getD d 0 < D ∧
+    m.requestedToSource.getD (m.sourceToRequested.getD d 0) 0 = d) ∧
+  (∀ d, d < D → m.requestedToSource.getD d 0 < D ∧
+    m.sourceToRequested.getD (m.requestedToSource.getD d 0) 0 = d)
+
+/-- same names in the same order, same lengths except along the chained dimension -/
+def Similar (along : Nat) (shape first : Shape ν) : Prop :=
+  namesOf shape = namesOf first ∧
+  lens shape = (lens first).set along (shape.getD along (default, 0)).2
+
+/-- the length of every source along the chained dimension -/
+def chainLens (shapes : List (Shape ν)) (along : Nat) : List Nat :=
+  shapes.map fun s => (s.getD along (default, 0)).2
+
+mutual
+/-- The invariant of a view: what its constructor established about its fields. -/
+def WF : View ν α → Prop
+  | .tensor _ t =>
+    ValidShape t.shape ∧ t.strides = computeStrides t.shape ∧ t.data.length = elements t.shape ∧
+    t.data.length ≤ usizeMax
+  | .matrix _ m r c => m.Inv ∧ r ≠ c ∧ m.data.length ≤ usizeMax
+  | .range s rs => s.WF ∧ RangesOK s.shape rs
+  | .mask s ms => s.WF ∧ MasksOK s.shape ms
+  | .index s p => s.WF ∧ ProvidedOK s.shape p
+  | .expansion s e => s.WF ∧ ExtraOK s.shape e
+  | .rename s ns => s.WF ∧ ns.length = s.shape.length ∧ ns.Nodup
+  | .reverse s r => s.WF ∧ r.length = s.shape.length
+  | .access s m => s.WF ∧ MappingOK m s.shape.length
+  | .transpose s m => s.WF ∧ MappingOK m s.shape.length
+  | .stack ss along =>
+    WFs ss ∧ ss ≠ [] ∧ ss.length ≤ usizeMax ∧ (∀ sh ∈ shapes ss, sh = (shapes ss).headD []) ∧
+    along.1 ≤ ((shapes ss).headD []).length ∧ along.2 ∉ namesOf ((shapes ss).headD [])
+  | .chain ss along =>
+    WFs ss ∧ ss ≠ [] ∧ along < ((shapes ss).headD []).length ∧
+    (∀ sh ∈ shapes ss, Similar along sh ((shapes ss).headD [])) ∧
+    (chainLens (shapes ss) along).sum ≤ usizeMax
+def WFs : List (View ν α) → Prop
+  | [] => True
+  | v :: vs => v.WF ∧ WFs vs
+end
+
 /-- The documented answer of `get_reference(idx)`. -/
 def specGet (v : View ν α) (idx : List Nat) : Option Cell :=
   if inBounds (lens v.shape) idx then v.specCell idx else none
